@@ -251,15 +251,16 @@ def heap_read_raw(eng, ref, field):
     return V(ty, z3.Select(field_array(eng, cls, field), ref.t))
 
 
-def havoc(eng, reason='external call'):
-    """forget every mutable field of every declared class (immutable fields keep their arrays)"""
+def havoc(eng, reason='external call', only=None):
+    """forget every mutable field of every declared class (immutable fields keep their arrays); `only` restricts
+    the havoc to a frame given as ['Class.field', ...]"""
     st = eng.st
     n = st.ghost.get('nhavoc', 0) + 1
     st.ghost['nhavoc'] = n
     old = dict(st.heap)
     for cname, k in KLASSES.items():
         for f, (ty, mutable) in k.fields.items():
-            if mutable:
+            if mutable and (only is None or ('%s.%s' % (cname, f)) in only or (cname + '.*') in only):
                 arr = z3.Const('H_%s_%s!h%d_%d' % (cname, f, eng.path_id, n), z3.ArraySort(I, T.sort_of(ty)))
                 st.heap[(cname, f)] = arr
                 st.ghost.setdefault('arr_nalloc', {})[arr.get_id()] = st.ghost.get('nalloc', 0)
@@ -275,7 +276,7 @@ def havoc(eng, reason='external call'):
     return old
 
 
-MONOTONE = {('Deferred', 'called'): 'up', ('DelayedCall', 'active'): 'down'}
+MONOTONE = {('Deferred', 'called'): 'up', ('DelayedCall', 'is_active'): 'down'}
 
 
 def known_refs(eng, cname):
